@@ -161,6 +161,18 @@ theorem upgrade_effect (s : Store) (now : Int) (self : Height) (u : UpgradeReq) 
       · show FMap.get (FMap.set s.pheight u.newClient.latest self) h' = _
         exact FMap.get_set_ne _ _ _ _ (Ne.symm hne')
 
+/-- **Trusting-period scaling is exact**: for unbonding periods below 10^18 ns (≈ 31.7 years) the new
+    trusting period is `⌊trustingPeriod · newUnbonding / oldUnbonding⌋` (the 18-decimal round-half-even of
+    `LegacyDec.Quo` never reaches the next integer); in particular it never exceeds the old one when the
+    unbonding period shrinks -/
+theorem trusting_period_scaling (tp ou nu : Nat) (h0 : 0 < ou) (h1 : ou < 10 ^ 18) :
+    calculateNewTrustingPeriod tp ou nu = tp * nu / ou ∧ (nu ≤ ou → calculateNewTrustingPeriod tp ou nu ≤ tp) := by
+  have e := calcTP_floor tp ou nu h0 h1
+  refine ⟨e, fun hle => ?_⟩
+  rw [e]
+  calc tp * nu / ou ≤ tp * ou / ou := Nat.div_le_div_right (Nat.mul_le_mul_left tp hle)
+    _ = tp := Nat.mul_div_cancel tp h0
+
 /-- relayer-chosen fields of the submitted client state (trust level, trusting period, clock drift,
     frozen height, deprecated flags) have no influence on the upgraded client state -/
 theorem upgrade_ignores_relayer_fields (cs : ClientState) (u u' : UpgradeReq)
